@@ -472,8 +472,8 @@ func scaleSchemas() []*scaleFam {
 			prog := "BEGINFILE { c++ }\nEND { print c }\n"
 			return scaleCase{Prog: prog, Files: []inFile{{Name: "in.json", Text: in}}, Want: itoa(n) + "\n", CLI: n%64 < 3 || n < 80}
 		}},
-		{Prop: "C03", Name: "a stream of n values handed out one value per Read, output watched at every Read", Max: 3000, QMax: 600, Custom: c03LongStream},
-		{Prop: "C03", Name: "a stream of n values whose first Reads are answered with a full buffer, the rest one value per Read", Max: 3000, QMax: 600, Custom: c03BurstStream},
+		{Prop: "C03", Name: "a stream of n values handed out one value per Read, output watched at every Read", Max: 3000, QMax: 600, Dense: 200, Custom: c03LongStream},
+		{Prop: "C03", Name: "a stream of n values whose first Reads are answered with a full buffer, the rest one value per Read", Max: 3000, QMax: 600, Dense: 200, Custom: c03BurstStream},
 		{Prop: "C03", Name: "a big value, two small ones, then a malformed byte, for every pair of value size and Read size", Max: len(c03BigThenBadGrid), QMax: len(c03BigThenBadGrid), All: true, Custom: c03BigThenBad},
 		{Prop: "C03", Name: "n complete values in front of a malformed one", Max: 70000, QMax: 5000, Build: func(n int) scaleCase {
 			in := seqs2(n, "\n", func(k int) string { return "[" + itoa(k) + "]" }) + "\n[1, }"
